@@ -246,6 +246,10 @@ func (an *An) Eval(v ssa.Value, facts []ir.Fact) Dir {
 		}
 		if lk, ok := x.Tuple.(*ssa.Lookup); ok {
 			if x.Index == 1 {
+				// "is the key present" depends on the inputs exactly when the key does
+				if !an.SelectionIndep && an.Eval(lk.Index, facts) != Indep {
+					return an.fail("presence test of a map key that depends on the inputs")
+				}
 				return Indep
 			}
 			return an.lookup(lk, facts)
